@@ -853,10 +853,14 @@ def run(ctx):
         "tied to the C code by this run's differential test (bytes, sizes, exception classes)",
         "layouts (sizes, offsets, bit shifts) are read from the real typeof(T).fields; wf_type is evaluated on each "
         "(C01 owns their correctness)",
-        "primitive value conversion abstracted: integer ranges modelled, float encodings supplied by struct.pack "
-        "(C03/C05 own them); long double / complex / enum initializers not generated",
+        "leaf stores are the shared models, not private copies: integers/_Bool = C03.Store.convert_from_object_int, "
+        "bit-fields = C02.Model.bf_write, bytes/str into character arrays and single wide chars = C15.Model.convert_array / "
+        "new_array_length / C15.Gen.as_single_char16,32 (C15/Gen.v regenerated by ./check C15, read as it is on disk here); "
+        "their UB / impossible-exception outcomes are mapped to SegV; float encodings supplied by struct.pack (C05 owns "
+        "them); long double / complex / enum initializers not generated",
         "Py_ssize_t wrap-around test of add_varsize_length modelled as a comparison with 2^63-1",
-        "wide-char arrays: the model writes the terminator; on zeroed memory this is indistinguishable from cffi",
+        "wide-char arrays: terminator written iff the units do not fill the array exactly (C15.convert_array, "
+        "cffi after commit 2103790)",
         "C20/Gen.v (regenerated): in convert_array_from_object force_lazy_struct(ctitem) precedes the first read of "
         "ct_flags_mut; API-mode (lazy field lists) behaviour is compared with the in-line FFI in fresh processes"]
     cases = generate(ctx)
@@ -889,7 +893,16 @@ MANIFEST = dict(
          "refused (C20_positional_is_keyword, C20_positional_too_long, C20_union_sequence_first_member); array sequences "
          "fill the leading items and leave the rest zero (C20_array_sequence_leading); ffi.sizeof(p[0]) / sizeof(p) = the "
          "size the sizing pass computed = the real block size, var-sized structs included (C20_sizeof_is_alloc_size, with "
-         "direct_newp's stored length and _cdata_var_byte_size modelled). C20_new_is_assign is definitional (one fill in the "
+         "direct_newp's stored length and _cdata_var_byte_size modelled). Which values are written: the leaves of the "
+         "filling pass are the functions C03/C02/C15 prove correct and tie to regenerated source (C20_prim_is_C03, "
+         "C20_bitfield_is_C02, C20_char_array_is_C15, C20_byte_array_is_C15: identifications, by construction of the "
+         "model, so the C20 correspondence run exercises those models); consequences: C20_prim_closed_form (accepted iff "
+         "C03.in_range, then the little-endian bytes, else OverflowError), C20_prim_reads_back, C20_bitfield_reads_back "
+         "(the field reads back as z through C02.bf_read and every other bit of the unit is kept), "
+         "C20_wf_bitfield_is_placement (wf_type's bit-field clause = C02's placement), C20_char_array_units (number of "
+         "units stored, never more than the declared length). SegV now also stands for C undefined behaviour in a leaf "
+         "(C03 UB / C02 BUB), so C20_sizing_dominates / C20_need_is_enough / C20_assign_stays_inside also say no leaf "
+         "store is UB for well-formed layouts (wf_type now demands 1 <= bits, shift + bits <= 8*size <= 64). C20_new_is_assign is definitional (one fill in the "
          "model, as one convert_from_object in the C code): the equality new(T, init) == new(T); p[0] = init is decided by "
          "the correspondence on the real code. The earlier refutation for arrays of var-sized structs (heap overflow, "
          "finding array_of_varsize_struct) was repaired in /repo commit 812503f; the guard is modelled (item_guard) and "
@@ -899,7 +912,10 @@ MANIFEST = dict(
          "bytes / ffi.sizeof / exception class of ffi.new(T, init), of the assignment form and of the by-name form on "
          "generated nested initializers.",
     note="Trusted: Coq kernel; hand model C20/Model.v (tied by differential testing, not by translation); layouts are read "
-         "from real cffi (C01 owns them) and checked against wf_type on each case; primitive conversions abstracted "
-         "(C03/C05); Py_ssize_t wrap-around test modelled as a bound. Not proved: which values are written (tied by "
-         "correspondence only).",
+         "from real cffi (C01 owns them: no theorem connects wf_type to C01's cffi_layout) and checked against wf_type on "
+         "each case; C03.Store / C02.Model / C15.Model are imported (the chain to regenerated text is C03_gen_store_refines, "
+         "C02_gen_write_refines, C15/Gen.v); float / pointer leaves still supplied as bytes; Py_ssize_t wrap-around tests "
+         "(add_varsize_length, direct_newp) modelled as bounds. Not proved: zero-outside-init for var-sized / nested partial "
+         "initializers, exact allocation size of a flexible initializer (Examples + correspondence only); the call-site facts "
+         "of convert_vfield_from_object / direct_newp are not regenerated (C20/Gen.v is one order fact).",
     design_ref="DESIGN.md §4 C20")
